@@ -117,9 +117,57 @@ fn enc_command(c: &TerminalCommand) -> Value {
     }
 }
 
+/// all 256 strings `prefix ++ [a, b]` through TTYEventDecoder / TTYCommandDecoder, whole and byte by
+/// byte: no panic, same events, exhausted decoder returns None, raw events non-empty and in order
+fn sweep_block(input: &Value) -> Value {
+    let prefix = vbytes(&input["prefix"]);
+    let a = input["a"].as_u64().unwrap_or(0) as u8;
+    let which = input["which"].as_u64().unwrap_or(0);
+    let mut bad: Vec<Value> = vec![];
+    for b in 0..=255u8 {
+        let mut data = prefix.clone();
+        data.push(a);
+        data.push(b);
+        let n = data.len();
+        let case = json!({"kind":"ev","which":which,"input":jbytes(&data),"parts":[[n], vec![1usize; n]]});
+        let r = exec(&case);
+        let runs = r.as_array().cloned().unwrap_or_default();
+        let ok = runs.len() == 2
+            && runs.iter().all(|x| x.is_object() && x["exhausted"].as_bool() == Some(true))
+            && runs[0] == runs[1]
+            && runs[0]["events"].as_array().map(|evs| {
+                // raw events are non-empty and their bytes occur in the input in order
+                let mut pos = 0usize;
+                evs.iter().all(|e| match e.get("raw") {
+                    Some(raw) => {
+                        let raw = vbytes(raw);
+                        if raw.is_empty() {
+                            return false;
+                        }
+                        match (pos..=data.len().saturating_sub(raw.len())).find(|i| data[*i..].starts_with(&raw)) {
+                            Some(i) => {
+                                pos = i + raw.len();
+                                true
+                            }
+                            None => false,
+                        }
+                    }
+                    None => true,
+                })
+            }).unwrap_or(false);
+        if !ok {
+            bad.push(json!({"input": jbytes(&data), "impl": r}));
+        }
+    }
+    json!({"bad": bad})
+}
+
 /// run one case on the real decoders; the result goes under "impl"
 pub fn exec(input: &Value) -> Value {
     let kind = input["kind"].as_str().unwrap_or("ev");
+    if kind == "sweep" {
+        return sweep_block(input);
+    }
     let data = vbytes(&input["input"]);
     let parts: Vec<Vec<usize>> = input["parts"].as_array().map(|a| a.iter().map(vusizes).collect()).unwrap_or_default();
     let mut outs = vec![];
@@ -229,6 +277,31 @@ pub fn exec_all(inputs: &[Value]) -> Vec<Value> {
         let _ = worker.child.wait();
     }
     res
+}
+
+/// exhaustive sweeps (run through the child, so that an abort is an observation): all two-byte
+/// strings through both decoders, all `ESC [` + two bytes through the event decoder
+pub fn sweep_main() -> i32 {
+    let mut blocks = vec![];
+    for a in 0..=255u64 {
+        blocks.push(json!({"kind":"sweep","which":0,"prefix":[],"a":a}));
+        blocks.push(json!({"kind":"sweep","which":1,"prefix":[],"a":a}));
+        blocks.push(json!({"kind":"sweep","which":0,"prefix":[27, 91],"a":a}));
+    }
+    let res = exec_all(&blocks);
+    let mut violations = vec![];
+    for (b, r) in blocks.iter().zip(res.iter()) {
+        match r.get("bad").and_then(|x| x.as_array()) {
+            Some(bad) => {
+                for x in bad {
+                    violations.push(json!({"kind":"ev","which":b["which"],"class":"sweep","input":x["input"],"parts":[[x["input"].as_array().map(|a| a.len()).unwrap_or(0)]],"impl":x["impl"]}));
+                }
+            }
+            None => violations.push(json!({"block": b, "impl": "abort"})),
+        }
+    }
+    println!("{}", json!({"strings": blocks.len() * 256, "violations": violations}));
+    0
 }
 
 /// child main loop: one JSON case per line on stdin, one JSON result per line on stdout
@@ -550,7 +623,9 @@ pub fn generate(rng: &mut Rng, n: usize, tier: &str) -> Vec<Value> {
         v.push(json!({"kind":"ev","which":0,"class":"utf8","input":jbytes(&s),"parts":all_single_cuts(s.len())}));
         v.push(json!({"kind":"ev","which":1,"class":"utf8","input":jbytes(&s),"parts":all_single_cuts(s.len())}));
     }
-    while v.len() < n {
+    // the thorough tier adds its n random cases on top of the (much larger) exhaustive part
+    let target = if thorough { v.len() + n } else { n };
+    while v.len() < target {
         match rng.below(10) {
             0 => {
                 let mut s = vec![];
